@@ -397,8 +397,8 @@ func (c *caseSpec) canonical() string {
 // treeFacts: depth reached, empty files, empty dirs, whether a component contains "..".
 type treeFacts struct {
 	Depth, Files, Dirs, EmptyFiles, EmptyDirs int
-	DotDot                                     bool
-	MaxSize                                    int
+	DotDot                                    bool
+	MaxSize                                   int
 }
 
 func facts(nodes []treegen.Node) treeFacts {
